@@ -190,7 +190,8 @@ def inv_cases(draw):
     c["lon2"] = draw(_angle(180.0, 179, extra=[144.9, 179.9]))
     if draw(st.integers(0, 3)) == 0:      # short line: second point next to the first (in both representations)
         f = list(c["lat1"][1])
-        f[3] = (f[3] + draw(st.integers(1, 10 ** 9))) % (60 * 10 ** 9)
+        if f[1] < 90:        # (90 deg 00' 00" is the end of the range: nothing may be added to it)
+            f[3] = (f[3] + draw(st.integers(1, 10 ** 9))) % (60 * 10 ** 9)
         c["lat2"] = [max(-90.0, min(90.0, c["lat1"][0] + draw(S.floats(-0.5, 0.5)))), f]
         c["lon2"] = [max(-180.0, min(180.0, c["lon1"][0] + draw(S.floats(-0.5, 0.5)))), list(c["lon1"][1])]
     return c
